@@ -12,7 +12,9 @@ Rules (symbolic per-path reading of initialize/update/timeout and of the Checkup
   M4  wiring: CheckupRate::evaluate passes the rate returned by update() to the check-up; heartBeatCallback calls
       checkup.timeout() exactly on the timeout path and returns its negation; getReport returns the check-up's report;
       the constructor's initial diagnostic is ERROR "no data received from <name>" and the check-up is built on <name>_rate, rate, epsilon
-  (classification / message / value agreement of the wrapped check-up: rules T1/T2 of C18 on the same instantiations)
+  M5  the wrapped check-up classifies the rate by its threshold with the boundaries the statement gives (equal-to: OK iff
+      |rate - target| <= epsilon, greater-than: OK iff rate > minimum - epsilon), message and printed value agreeing: C18's exhaustive
+      cell evaluation applied to CheckupEqualTo<double> and CheckupGreaterThan<double>, the types CheckupRate is instantiated with
 Not decided: numeric rate values of concrete jittered histories beyond the formula."""
 import sympy as sp
 from .. import sym
@@ -55,6 +57,7 @@ def run(fx, R, tier):
         check_update(fx, R, fu, ft)
         check_timeout(fx, R, ft, cst)
         check_wiring(fx, R)
+        check_classification(fx, R)
     except sym.Unsupported as u:
         R.undecided('M2', 'RateMonitoring', 'symbolic reader: %s' % u)
 
@@ -294,3 +297,35 @@ def check_wiring(fx, R):
             and ck[4] == ('new:Diagnostic', 'romea::core::DiagnosticStatus::ERROR', ('+', 'no data received from ', 'name'))
         R.check(okc, 'M4', cname + ':constructor', 'constructor wiring differs: monitor %s, check-up %s' % (rm, ck),
                 'monitor(rate); check-up(name_rate, rate, epsilon, ERROR "no data received from <name>")', fx.rel(ctor[0]['loc']), 'E-STATE')
+
+
+class _Remap:
+    """Forwards C18's verdicts under C17's rule name."""
+
+    def __init__(self, R):
+        self.R = R
+
+    def holds(self, rule, inst, *a, **k):
+        self.R.holds('M5', inst, *a, **k)
+
+    def violated(self, rule, inst, *a, **k):
+        self.R.violated('M5', inst, *a, **k)
+
+    def undecided(self, rule, inst, *a, **k):
+        self.R.undecided('M5', inst, *a, **k)
+
+    def check(self, cond, rule, inst, *a, **k):
+        return self.R.check(cond, 'M5', inst, *a, **k)
+
+    def used(self, *f):
+        self.R.used(*f)
+
+
+def check_classification(fx, R):
+    from . import C18
+    RR = _Remap(R)
+    for cq, kind in (('romea::core::CheckupEqualTo<double>', 'equal'), ('romea::core::CheckupGreaterThan<double>', 'greater')):
+        if fx.one(cq + '::evaluate') is None:
+            R.undecided('M5', short_fn(cq), 'evaluate() of the wrapped check-up has no body in the parsed units')
+            continue
+        C18.check_checkup(fx, RR, cq, kind)
